@@ -56,13 +56,13 @@ def all_ops():
         ops.append(["append", e])
         ops.append(["add_state", e])
         ops.append(["remove", e])
-        for i in (0, 1, -1, 9):
+        for i in (0, 1, -1, 9, -9):
             ops.append(["insert", i, e])
-        for i in (0, -1):
+        for i in (0, -1, 1):
             ops.append(["setitem", i, e])
-    for i in (0, 1, -1, 9):
+    for i in (0, 1, -1, 9, -2):
         ops.append(["pop", i])
-    for i in (0, 1, -1):
+    for i in (0, 1, -1, -2):
         ops.append(["delitem", i])
     operands = [[], ["A"], ["D"], ["C", "B"]]
     for opnd in operands:
@@ -73,9 +73,9 @@ def all_ops():
                 ops.append([name, form, opnd])
     for name in ("extend", "iadd", "add"):
         ops.append([name, "self", None])
-    for k in (0, 1, 2, -1):
+    for k in (0, 1, 2, -1, 3):
         ops.append(["mul", k])
-    for sl in ([None, None], [1, None], [None, 1], [0, 0], [None, None, 2]):
+    for sl in ([None, None], [1, None], [None, 1], [0, 0], [None, None, 2], [None, None, -1], [-2, None], [2, None, -2]):
         ops.append(["getslice", sl])
     ops.append(["setslice", [0, 1], ["D"]])
     ops.append(["setslice", [1, None], []])
@@ -85,6 +85,10 @@ def all_ops():
     ops.append(["delslice", [0, 1]])
     ops.append(["delslice", [1, None]])
     ops.append(["delslice", [None, None]])
+    ops.append(["delslice", [None, None, 2]])
+    ops.append(["delslice", [2, None, -2]])
+    ops.append(["delslice", [-1, None]])
+    ops.append(["setslice", [-1, None], ["A", "D"]])
     ops += [["clear"], ["sort", False], ["sort", True], ["reverse"], ["copy"], ["construct", "list"],
             ["construct", "iter"], ["construct", "AR"],
             ["filter", "le1"], ["filter", "none"], ["filter", "all"], ["filter_states", "up"],
